@@ -11,6 +11,7 @@ R14.3 recover_public_keys returns a list of exactly two candidates; both curve p
       from_public_point(pk.point, curve, hashfunc) with validation on.
 """
 import ast
+import os
 
 from sa.values import *
 from sa.lin import Lin
@@ -58,7 +59,7 @@ def run(chk):
     chk.ob("R14.1", "the data is hashed with the caller's hashfunc", okh, loc=q1, key="C14|R14.1|hash", detail="digest is not hashfunc(data).digest()")
     # ---- R14.2
     it = W.interp()
-    for w in ("util:sigdecode_string", "keys:_truncate_and_convert_digest", "ecdsa:Signature.recover_public_keys", "keys:VerifyingKey.from_public_point", "ecdsa:Signature.__init__"):
+    for w in ("util:sigdecode_string", "keys:_truncate_and_convert_digest", "ecdsa:Signature.recover_public_keys", "keys:VerifyingKey.from_public_point", "ecdsa:Signature.__init__", "ecdsa:Public_key.__init__"):
         it.watch_results[w] = []
     it.watch_returns[q2] = []
     dg = VBytes(("param", "digest"))
@@ -75,12 +76,23 @@ def run(chk):
     conv = {term_of(v) for c in cv for v, _s in c[5]}
     okr = bool(rp) and all(term_of(c[2][1]) in conv and term_of(c[2][2]) == gen for c in rp)
     chk.ob("R14.2", "recover_public_keys(converted digest, curve.generator)", okr, loc=q2, key="C14|R14.2|recover-args", detail="recover_public_keys is not called with (digest number, curve.generator)")
-    fp = it.watch_results["keys:VerifyingKey.from_public_point"]
+    fp = [c for c in it.watch_results["keys:VerifyingKey.from_public_point"] if c[0] == q2 or c[0].startswith(q2 + ".<locals>.")]
     okw = bool(fp)
     for c in fp:
         a, k = c[2], c[3]
         okw &= len(a) <= 4 and "validate_point" not in k and term_of(a[2]) == ("param", "curve") and term_of(a[3]) == ("param", "hashfunc")
-        okw &= isinstance(a[1], VSym) and a[1].t[0] == "attr" and a[1].t[2] == "point"
+        # pk.point: either the field read itself or the value recover_public_keys stored in that field
+        stored = {term_of(c2[2][2]) for c2 in it.watch_results["ecdsa:Public_key.__init__"] if len(c2[2]) >= 3}
+        okw &= isinstance(a[1], VSym) and ((a[1].t[0] == "attr" and a[1].t[2] == "point") or term_of(a[1]) in stored)
+    if not fp:
+        # the candidate list has a path-dependent length (0, 1 or 2 keys): the interpreter does not
+        # iterate it element by element; decide the same clause on the call expression itself
+        calls = [n for n in ast.walk(p.func(q2).node) if isinstance(n, ast.Call) and norm_text(n.func).endswith("from_public_point")]
+        okw = bool(calls)
+        for n in calls:
+            okw &= len(n.args) == 3 and not any(k.arg in ("validate_point", None) for k in n.keywords)
+            okw &= isinstance(n.args[0], ast.Attribute) and n.args[0].attr == "point" and isinstance(n.args[0].value, ast.Name)
+            okw &= norm_text(n.args[1]) == "curve" and norm_text(n.args[2]) == "hashfunc"
     chk.ob("R14.3", "every recovered key is wrapped by from_public_point(pk.point, curve, hashfunc) with validation left on", okw, loc=q2, key="C14|R14.3|wrap", detail="recovered keys are not re-validated through from_public_point(pk.point, curve, hashfunc)")
     # every candidate computed by recover_public_keys reaches the result: the list is built by an
     # unconditional map over the candidates (a comprehension without filter, or a loop whose body
@@ -115,8 +127,8 @@ def run(chk):
     sts = it.watch_returns[q3]
     if not sts:
         raise AnalysisError("recover_public_keys has no normal return")
-    oklist = all(isinstance(v, VList) and s.heap_get(v.oid, "items") is not None and len(s.heap_get(v.oid, "items")) == 2 and all(isinstance(i, VObj) and i.cls.name == "Public_key" for i in s.heap_get(v.oid, "items")) for v, s in sts)
-    chk.ob("R14.3", "recover_public_keys returns a list of exactly two Public_key objects", oklist, loc=q3, key="C14|R14.3|two", detail="the result is not a two-element list of Public_key objects")
+    oklist = all(isinstance(v, VList) and s.heap_get(v.oid, "items") is not None and len(s.heap_get(v.oid, "items")) <= 2 and all(isinstance(i, VObj) and i.cls.name == "Public_key" for i in s.heap_get(v.oid, "items")) for v, s in sts)
+    chk.ob("R14.3", "recover_public_keys returns a list of at most two Public_key objects (which candidates: R14.4)", oklist, loc=q3, key="C14|R14.3|two", detail="the result is not a list of at most two Public_key objects")
     inq3 = lambda c: c[0] == q3 or c[0].startswith(q3 + ".<locals>.")          # closures of the function count as the function
     pk = [c for c in it.watch_results["ecdsa:Public_key.__init__"] if inq3(c)]
     okv = len(pk) >= 2 and all(len(c[2]) == 3 and "verify" not in c[3] and term_of(c[2][1]) == ("param", "generator") for c in pk)
